@@ -16,7 +16,7 @@ from sim import devices
 from sim.canon import Log, dec_table, enc, canon_rows, canon_row
 from sim.core import outcome, ddmin_lists, draw_config
 from sim.devices import (SimStore, SimCompressedSource, PipeFault,
-                         SimSourceError)
+                         SimSourceError, SimDiskFull)
 from sim.gen import FIELDS
 from sim.loader import load_petl
 
@@ -177,6 +177,7 @@ def gen_case(rng, tier, g):
             'failed_write_before': [i for i, h in enumerate(hist)
                                     if h[0] == 'TO' and rng.random() < 0.2],
             'failed_at': rng.randint(0, 6),
+            'failed_mode': rng.choice(['source', 'source', 'sink']),
             'srcobj': rng.choice([None, None, 'object', 'bgz'])
             if target.startswith('path') else None,
             'frag': [rng.choice([1, 2, 3, 5, 7, 64, 8192])
@@ -425,16 +426,30 @@ def run_case(case):
                     # an earlier attempt that fails part-way (its row source
                     # raises); the exception object is kept alive, as a caller
                     # collecting errors would
-                    bad = PipeFault([list(r) for r in table] +
-                                    [list(table[-1])] * 5,
-                                    case.get('failed_at', 1))
-                    try:
-                        _write(e, fmt, 'TO', bad, tgt.w, args, wh)
-                    except SimSourceError as ex:
-                        kept.append(ex)
-                        probes['failed-write-attempt'] = 1
-                    except Exception:
-                        pass
+                    if case.get('failed_mode') == 'sink' and \
+                            kind.startswith('sim'):
+                        # ... or because the target runs out of space
+                        store.write_budget = case.get('failed_at', 1) * 9
+                        try:
+                            _write(e, fmt, 'TO', table, tgt.w, args, wh)
+                        except SimDiskFull as ex:
+                            kept.append(ex)
+                            probes['failed-write-attempt:sink'] = 1
+                        except Exception:
+                            pass
+                        finally:
+                            store.write_budget = None
+                    else:
+                        bad = PipeFault([list(r) for r in table] +
+                                        [list(table[-1])] * 5,
+                                        case.get('failed_at', 1))
+                        try:
+                            _write(e, fmt, 'TO', bad, tgt.w, args, wh)
+                        except SimSourceError as ex:
+                            kept.append(ex)
+                            probes['failed-write-attempt'] = 1
+                        except Exception:
+                            pass
                 try:
                     _write(e, fmt, op, table, tgt.w, args, wh)
                 except (UnicodeError, KeyError, IndexError, csv.Error) as ex:
